@@ -27,6 +27,9 @@ PROPS = {
     "C04": ("c04", ["default"], ALL_CFGS),
     "C01": ("text", ["default"], ALL_CFGS),
     "C07": ("text", ["default"], ALL_CFGS),
+    "C12": ("strings", ["default"], ALL_CFGS),
+    "C13": ("lexer_rules", ["default"], ALL_CFGS),
+    "C14": ("parse_cov", ["default"], ALL_CFGS),
     "C16": ("orch", ["default"], ALL_CFGS),
     "C17": ("orch", ["default"], ALL_CFGS),
     "C18": ("orch", ["default"], ALL_CFGS),
